@@ -430,6 +430,19 @@ def c14g(ctx, tu):
         cases.append(("self move-assignment", h, "r", {0: ("ref", "r")}, [("r", ["r", "e1"])]))
         total += check("C14.g", fn, cases, "moving a node must put the new node in the old one's place (every element keeps "
                        "its neighbours) and leave the old one unlinked")
+    # moving a whole list (a movable mock's expectation lists): the new list holds the same elements in the same
+    # order and the moved-from list is empty - whether the move is the member-wise default or written by hand
+    for fn in tu.find(NS + "list::list"):
+        if fn.rec.get("special") != "move_ctor":
+            continue
+        cases = []
+        for k in range(0, 4):
+            ring = ["r"] + elems[:k]
+            h = Heap(); h.ring(list(ring)); h.add("this")
+            cases.append(("move-construct a list from %s" % ring, h, "this", {0: ("ref", "r")},
+                          [("this", ["this"] + elems[:k]), ("r", ["r"])]))
+        total += check("C14.g", fn, cases, "moving a list must carry its elements over in their order and leave the "
+                       "moved-from list empty")
     return total
 
 
